@@ -46,7 +46,7 @@ func (g *c09Gen) returns(depth int, allowInclude bool) []*mj.Node {
 		return mj.Str(g.id("R"))
 	}
 	ret := func() *mj.Node { return &mj.Node{K: "return", E: val()} }
-	k := g.n(0, 10, "retpos")
+	k := g.n(0, 12, "retpos")
 	g.labels[fmt.Sprintf("return-position:%d", k)] = true
 	switch k {
 	case 0: // none
@@ -60,7 +60,8 @@ func (g *c09Gen) returns(depth int, allowInclude bool) []*mj.Node {
 	case 4: // in range: the loop stops after the iteration that returned
 		rn := &mj.Node{K: "range", Names: []string{g.id("ri")}, Decl: true, E: mj.Call("ints", mj.Num(0), mj.Num(3))}
 		rn.Body = []*mj.Node{mj.Text("it"), mj.If(mj.Bin("==", mj.Var(rn.Names[0]), mj.Num(float64(g.n(0, 2, "retiter")))), []*mj.Node{ret()}, nil)}
-		return []*mj.Node{rn, mj.Text("after-range")}
+		// what follows the loop runs with the context and the variables of before the loop
+		return []*mj.Node{rn, mj.Text("after-range(.="), mj.Print(mj.Dot()), mj.Text(")(loop variable still set:"), mj.Print(mj.Call("isset", mj.Var(rn.Names[0]))), mj.Text(")")}
 	case 5: // in try (succeeding) and in a caught try
 		if g.n(0, 1, "trykind") == 0 {
 			return []*mj.Node{{K: "try", Body: []*mj.Node{ret(), mj.Text("in-try")}}, mj.Text("after-try")}
@@ -79,6 +80,30 @@ func (g *c09Gen) returns(depth int, allowInclude bool) []*mj.Node {
 		name := g.id("retwrap")
 		return []*mj.Node{{K: "block", Name: name, Body: []*mj.Node{mj.Text("(wrap:"), {K: "ycontent"}, mj.Text(":wrap)")}, HasCont: true, Content: []*mj.Node{mj.Text("default-content")}},
 			{K: "yield", Name: name, HasCont: true, Content: []*mj.Node{mj.Text("content-with-return"), ret()}}, mj.Text("after-content")}
+	case 11: // a value, then nil: the last return executed counts, whatever it was given
+		return []*mj.Node{ret(), mj.Text("between-returns"), {K: "return", E: mj.Nil()}, mj.Text("after-return-nil")}
+	case 12: // the same with the `return nil` below another construct
+		rnil := &mj.Node{K: "return", E: mj.Nil()}
+		var nested *mj.Node
+		switch g.n(0, 5, "nilReturnBelow") {
+		case 0:
+			nested = mj.If(mj.Bool(true), []*mj.Node{rnil}, nil)
+		case 1: // (the loop is over after the iteration that returned)
+			nested = &mj.Node{K: "range", E: mj.Call("ints", mj.Num(0), mj.Num(3)), Body: []*mj.Node{mj.Text("it"), rnil}}
+		case 2:
+			nested = &mj.Node{K: "try", Body: []*mj.Node{rnil, mj.Text("in-try")}}
+		case 3:
+			nested = &mj.Node{K: "block", Name: g.id("nilblk"), Body: []*mj.Node{mj.Text("in-block"), rnil}}
+		case 4:
+			name := g.id("nilwrap")
+			return []*mj.Node{ret(), {K: "block", Name: name, Body: []*mj.Node{mj.Text("(wrap:"), {K: "ycontent"}, mj.Text(":wrap)")}, HasCont: true, Content: []*mj.Node{mj.Text("default-content")}},
+				{K: "yield", Name: name, HasCont: true, Content: []*mj.Node{mj.Text("content-with-return-nil"), rnil}}, mj.Text("after-content")}
+		default:
+			sub := &mj.File{Path: "/" + g.id("nilsub") + ".jet", Body: []*mj.Node{mj.Text("sub:"), rnil}}
+			g.addFile(sub)
+			nested = &mj.Node{K: "include", E: mj.Str(sub.Path)}
+		}
+		return []*mj.Node{ret(), mj.Text("between-returns"), nested, mj.Text("after-nested-return-nil")}
 	case 7: // return nil only
 		return []*mj.Node{{K: "return", E: mj.Nil()}, mj.Text("after-return-nil")}
 	default: // inside an included sub-template
@@ -431,7 +456,7 @@ func judgeC09(c c09Case) (v core.Verdict) {
 
 func TestC09(t *testing.T) {
 	core.Run(t, "C09",
-		"template sets with files in nested directories: call sites of include (absolute, ./ and ../ relative, computed names, name and context both read from the dot of a range, names that are fmt.Stringers of struct and of string kind; with/without context), exec (with/without context; callee with return at every position: none, top, several, in if, in range, in try/catch, in a block body, in yield content, followed by statements that return nothing, return nil, inside an included sub-template) and includeIfExists (existing, missing - also with a context expression that would fail if evaluated -, unparsable; as statement and as condition), placed at depth 0-3 inside range / block / try / other includes; callees extend 0-2 levels, declare variables, rebind '.', define blocks, yield the caller's blocks, assign the caller's variables; probes after every call site; exec of a name computed by a function that answers differently on every call; one case in forty with more than 1000 includes in one loop; one case in four with some callee files created only after a first execution of the set; oracle = MiniJet reference interpreter; non-trivial = call site at depth>=2 with a callee that rebinds '.' / an exec / an explicit context",
+		"template sets with files in nested directories: call sites of include (absolute, ./ and ../ relative, computed names, name and context both read from the dot of a range, names that are fmt.Stringers of struct and of string kind; with/without context), exec (with/without context; callee with return at every position: none, top, several, in if, in range, in try/catch, in a block body, in yield content, followed by statements that return nothing, return nil, inside an included sub-template) and includeIfExists (existing, missing - also with a context expression that would fail if evaluated -, unparsable; as statement and as condition), placed at depth 0-3 inside range / block / try / other includes; callees extend 0-2 levels, declare variables, rebind '.', define blocks, yield the caller's blocks, assign the caller's variables; probes after every call site; exec of a name computed by a function that answers differently on every call; one case in forty with more than 1000 includes in one loop; one case in four with some callee files created only after a first execution of the set; also: `return nil` after a return with a value, directly in the list and below if / range / try / block / yield content / include; '.' and the loop variable after a range that returned; oracle = MiniJet reference interpreter; non-trivial = call site at depth>=2 with a callee that rebinds '.' / an exec / an explicit context",
 		genC09, judgeC09)
 }
 
